@@ -20,7 +20,7 @@ func init() { families["c01"] = runC01 }
 var c01Custom = []struct {
 	name string
 	code int32
-}{{"VERBOSE", 50}, {"NOTICE", 450}, {"ABOVE", 1500}}
+}{{"VERBOSE", 50}, {"NOTICE", 450}, {"ABOVE", 1500}, {"BELOW", -7}, {"ALL", -2147483648}, {"OFF", 2147483647}} // the extremes of the code type included: differences of codes do not fit the type
 
 var c01Tag *log.Tag
 
@@ -37,10 +37,14 @@ func c01ProbeCodes() []int32 {
 	seen := map[int32]bool{}
 	var out []int32
 	for _, c := range codes {
-		for _, d := range []int32{-1, 0, 1} {
-			if !seen[c+d] {
-				seen[c+d] = true
-				out = append(out, c+d)
+		for _, d := range []int64{-1, 0, 1} {
+			v := int64(c) + d
+			if v < -2147483648 || v > 2147483647 { // not a level code
+				continue
+			}
+			if !seen[int32(v)] {
+				seen[int32(v)] = true
+				out = append(out, int32(v))
 			}
 		}
 	}
